@@ -245,14 +245,23 @@ theorem C14_exactly_listed (k : Fmt) (preload : Bool) (tags cases : List String)
 entry's tag and the configured list; the preloaded path keeps exactly `filter chosen` of what `LoadAmmo` returned
 (regenerated loop of `loadAmmo`), BEFORE the cyclic replay; the streaming path asks the filter about the ammo that
 `Decoder.Scan` just returned and counts an ammo only when it is sent (regenerated loop body of `runFullScan`);
-`Provider.Run` is built from these pieces, the sentinel mapping and the deferred close as regenerated. -/
+`Provider.Run` is built from these pieces, the sentinel mapping and the deferred close as regenerated; a failed
+`LoadAmmo` ends `loadAmmo` (regenerated error branch) with an error — the decoder's error class while the context is
+not cancelled, context.Canceled for a cancel that ended the load (`loadFail`) — never with nil or with the filter loop. -/
 theorem C14_model_is_source :
     (∀ (cases : List String) (e : Entry), isChosen cases e = Gen.ChosenCases.isChosenCase e.tag cases) ∧
     (∀ (chosen : Entry → Bool) (ammos : List Entry), Gen.ChosenCases.loadAmmoKeep chosen ammos = ammos.filter chosen) ∧
     (∀ (preload : Bool), Gen.ChosenCases.runPath preload = if preload then ["loadAmmo", "ok:runPreloaded"] else ["runFullScan"]) ∧
     Gen.ChosenCases.httpRunCloses = true ∧ (∀ l, Gen.ChosenCases.decoderLimit l = 0) ∧
-    Gen.ChosenCases.runPreloadedDone = Gen.ChosenCases.runFullScanDone :=
-  ⟨Bridge.C14.isChosen_eq_source, Bridge.C14.loadAmmoKeep_eq, fun p => by cases p <;> rfl, rfl, fun _ => rfl, rfl⟩
+    Gen.ChosenCases.runPreloadedDone = Gen.ChosenCases.runFullScanDone ∧
+    (∀ (c : Bool) (e : RunRes), e ≠ .nil →
+      (Gen.ChosenCases.loadAmmoFail c e).isSome = true ∧ Gen.ChosenCases.loadAmmoFail c e ≠ some .nil ∧
+      (c = false ∨ e = .canceled → Gen.ChosenCases.loadAmmoFail c e = some (loadFail c e))) :=
+  ⟨Bridge.C14.isChosen_eq_source, Bridge.C14.loadAmmoKeep_eq, fun p => by cases p <;> rfl, rfl, fun _ => rfl, rfl,
+   fun c e he => ⟨(Bridge.C14.loadFail_source.2.1 c e he).1, (Bridge.C14.loadFail_source.2.1 c e he).2, fun h => by
+     rcases h with h | h
+     · subst h; exact Bridge.C14.loadFail_source.2.2.1 e he
+     · subst h; exact Bridge.C14.loadFail_source.2.2.2 c⟩⟩
 
 /-- With a non-empty chosencases list, filtering a file with the REGENERATED `IsChosenCase` gives exactly the
 entries whose tag is listed (the list the theorems above speak about); with an empty list, the whole file. -/
